@@ -630,6 +630,10 @@ func (e *Env) evalCall(n *gen.Node) (Val, bool) {
 			if v, ok := PlainInt(a0.S); ok {
 				return IntV(v), true
 			}
+			// the text of a whole decimal ('3.0') is that integer under every reading as well
+			if f, ok := PlainFloat(a0.S); ok && f == math.Trunc(f) && math.Abs(f) <= 1<<53 {
+				return IntV(int64(f)), true
+			}
 		case VFloat:
 			// a whole number is that integer under every reading of "convert into integer"
 			// (README: int(json(value)['test']) >= 1, JSON numbers being floats)
